@@ -48,7 +48,7 @@ def _trace_sig(t, bad, l):
 def run(ctx):
     # 1. model checking (small symbolic signatures, full grid)
     ctx.mc("websec", "SignedValue", "MC_SignedValue.cfg", required_actions=["Scenario", "ArbPut"],
-           overrides=ctx.pick({"ArbLen": 3}, {"ArbLen": 6}))
+           overrides=ctx.pick({"ArbLen": 3, "Times": "{1234567}"}, {"ArbLen": 6}))
     # the version-1 format is refuted on the specification itself (F11)
     ctx.mc("websec", "SignedValue", "MC_SignedValue_v1.cfg",
            spec_violation_sig=lambda r, states: {"version": 1})
